@@ -332,6 +332,8 @@ def gen_purity_world(rw, rv, knobs):
                 kw["positive_only_uses_p_initial"] = rw.random() < 0.7
             if rw.random() < 0.15:
                 kw["force_edge_image_pixels_to_zeros"] = True
+                if rw.random() < 0.8:
+                    kw["image_pixels_source_zero"] = sorted(rw.sample(range(n0), min(n0, rw.randrange(1, 4))))
             settings = R.add("st", {"kind": "settings", "kw": kw})
         inv = R.add("inv", {"kind": "inversion", "dataset": ref(ds_masked), "objs": [ref(o) for o in objs], "settings": ref(settings) if settings else None, "profile": profile})
         if rw.random() < 0.6:
@@ -578,6 +580,13 @@ def gen_preloads_world(rw, rv, knobs):
         solver["force_edge_pixels_to_zeros"] = False
     if rw.random() < 0.15:
         solver["positive_only_uses_p_initial"] = rw.random() < 0.5
+    if rw.random() < 0.2:
+        # source pixels that given image pixels map to are forced to zero (positive-only solver with edge pixels zeroed)
+        solver["force_edge_image_pixels_to_zeros"] = True
+        solver["image_pixels_source_zero"] = sorted(rw.sample(range(n0), min(n0, rw.randrange(1, 4))))
+        if rw.random() < 0.8:
+            solver["use_positive_only_solver"] = True
+            solver.pop("force_edge_pixels_to_zeros", None)
     st_w = R.add("st", {"kind": "settings", "kw": dict(solver, use_w_tilde=True)})
     st_m = R.add("st", {"kind": "settings", "kw": dict(solver, use_w_tilde=False)})
 
